@@ -374,6 +374,7 @@ package silence
 //@   ensures [open-error-reported] called("openReplace") && ret1("openReplace") != nil ==> result1 != nil && !called("Silences).Snapshot")
 //@   ensures [success-means-renamed] result1 == nil && deref(snapf) != "" ==> called("replaceFile).Close") && ret("replaceFile).Close") == nil
 //@   ensures [failed-snapshot-discarded] called("Silences).Snapshot") && ret1("Silences).Snapshot") != nil ==> called("os.File).Close") && called("os.Remove") && !called("replaceFile).Close")
+//@   at call os.Remove assert [only-the-temporary-file-is-ever-removed] called("File).Name") && arg0 == ret("File).Name") && called("Silences).Snapshot") && ret1("Silences).Snapshot") != nil
 //@   ensures [always-collects] called("Silences).GC")
 //@   noeffect Silences).GC Silences).Snapshot openReplace replaceFile).Close
 // one maintenance run: the given action is executed exactly once and its error is handed back
